@@ -15,3 +15,7 @@ k = _m.start() if _m else -1
 print(out[:k if k > 0 else None][-int(os.environ.get('TAIL', '9000')):])
 if js:
     print(js.get('verification-results'), f'wall={wall:.1f}s')
+if js and os.environ.get('TIMES'):
+    for m in js['times-ms'].get('smt', {}).get('smt-run-module-times', []):
+        for f in sorted(m.get('function-breakdown', []), key=lambda x: -x['time'])[:8]:
+            print(f['function'], f['time'], 'ms', 'rlimit', f['rlimit'], f['success'])
